@@ -459,4 +459,36 @@ theorem decFixed_sound (bits : ℕ) (bs : List ℕ) (v n : ℕ) (h : decFixed bi
         rw [List.length_take, List.length_drop] at t1
         omega
 
+/-- the executable lenient reading used by the C17 predicate agrees with `CompactDenotes`. -/
+theorem denoteCompact_of_denotes (bs : List ℕ) (v n : ℕ) (h : CompactDenotes bs v n) :
+    denoteCompact bs = some (v, n) := by
+  match bs, h with
+  | [], h => simp [CompactDenotes] at h
+  | p :: rest, h =>
+    simp only [CompactDenotes] at h
+    obtain ⟨hn, h0, h1, h2, h3⟩ := h
+    simp only [List.length_cons] at hn
+    have hp4 : p % 4 < 4 := Nat.mod_lt _ (by norm_num)
+    simp only [denoteCompact]
+    by_cases m0 : p % 4 = 0
+    · obtain ⟨e1, e2⟩ := h0 m0; subst e1; subst e2; rw [if_pos m0]
+    · rw [if_neg m0]
+      by_cases m1 : p % 4 = 1
+      · obtain ⟨e1, e2⟩ := h1 m1; subst e1; subst e2
+        rw [if_pos m1, if_neg (by omega)]
+      · rw [if_neg m1]
+        by_cases m2 : p % 4 = 2
+        · obtain ⟨e1, e2⟩ := h2 m2; subst e1; subst e2
+          rw [if_pos m2, if_neg (by omega)]
+        · rw [if_neg m2]
+          obtain ⟨e1, e2⟩ := h3 (by omega); subst e1; subst e2
+          rw [if_neg (by omega)]
+
+/-- C17: an input accepted by `CompactUint::decode` denotes (lenient reading of the format) exactly the returned
+    value and item length. -/
+theorem decCompact_denote (bits : ℕ) (bs : List ℕ) (v n : ℕ) (h : decCompact bits bs = .ok (v, n)) :
+    v < 2 ^ bits ∧ denoteCompact bs = some (v, n) :=
+  ⟨(decCompact_sound bits bs v n h).1, denoteCompact_of_denotes bs v n (decCompact_sound bits bs v n h).2⟩
+
+
 end Ruint.Codec.Scale
